@@ -1,0 +1,85 @@
+//go:build verif
+
+package spec
+
+// Lemma functions for the deductive verification in /verif: each composes calls
+// of the real API; the verifier sees the callees only through their contracts
+// (verif_contracts.go), so a postcondition proved here is a lemma over those
+// contracts.  Compiled only with the build tag `verif`; never called.
+
+// ---- C20
+
+func verifLemmaSchemaGetSet(s *Schema) {
+	s.SetValidations(s.Validations())
+}
+
+func verifLemmaSchemaSetGet(s *Schema, val SchemaValidations) SchemaValidations {
+	s.SetValidations(val)
+	return s.Validations()
+}
+
+func verifLemmaParameterGetSet(p *Parameter) {
+	p.SetValidations(p.Validations())
+}
+
+func verifLemmaParameterSetGet(p *Parameter, val SchemaValidations) SchemaValidations {
+	p.SetValidations(val)
+	return p.Validations()
+}
+
+func verifLemmaHeaderGetSet(h *Header) {
+	h.SetValidations(h.Validations())
+}
+
+func verifLemmaHeaderSetGet(h *Header, val SchemaValidations) SchemaValidations {
+	h.SetValidations(val)
+	return h.Validations()
+}
+
+func verifLemmaItemsGetSet(i *Items) {
+	i.SetValidations(i.Validations())
+}
+
+func verifLemmaItemsSetGet(i *Items, val SchemaValidations) SchemaValidations {
+	i.SetValidations(val)
+	return i.Validations()
+}
+
+func verifLemmaSchemaValidationsGetSet(v *SchemaValidations) {
+	v.SetValidations(v.Validations())
+}
+
+func verifLemmaClearNumberThenHas(p *Parameter, cbs []func(string, interface{})) bool {
+	p.ClearNumberValidations(cbs...)
+	return p.HasNumberValidations()
+}
+
+func verifLemmaClearStringThenHas(h *Header, cbs []func(string, interface{})) bool {
+	h.ClearStringValidations(cbs...)
+	return h.HasStringValidations()
+}
+
+func verifLemmaClearArrayThenHas(i *Items, cbs []func(string, interface{})) bool {
+	i.ClearArrayValidations(cbs...)
+	return i.HasArrayValidations()
+}
+
+func verifLemmaClearObjectThenHas(v *SchemaValidations, cbs []func(string, interface{})) bool {
+	v.ClearObjectValidations(cbs...)
+	return v.HasObjectValidations()
+}
+
+// any order of the clear operations ends in the same state: two of the six orders, the others are symmetric
+func verifLemmaClearOrderA(v *SchemaValidations) {
+	v.ClearNumberValidations()
+	v.ClearStringValidations()
+	v.ClearArrayValidations()
+	v.ClearObjectValidations()
+}
+
+func verifLemmaClearOrderB(v *SchemaValidations) {
+	v.ClearObjectValidations()
+	v.ClearArrayValidations()
+	v.ClearStringValidations()
+	v.ClearNumberValidations()
+}
